@@ -213,7 +213,11 @@ func readBack(t testing.TB, b []byte) (names []string, present []bool, grids []m
 					rn, _ = strconv.Atoi(row.R)
 				}
 				prev = rn
+				nextCol := 0
 				for _, c := range row.Cells {
+					if c.R == "" { // inferred: the column after the previous cell of the row element
+						c.R = Ref(nextCol, rn-1)
+					}
 					i := 0
 					for i < len(c.R) && c.R[i] >= 'A' && c.R[i] <= 'Z' {
 						i++
@@ -223,6 +227,7 @@ func readBack(t testing.TB, b []byte) (names []string, present []bool, grids []m
 					if col < 0 || err != nil {
 						t.Fatalf("bad cell ref %q", c.R)
 					}
+					nextCol = col + 1
 					if rr != rn {
 						t.Fatalf("cell %s sits in row element %d", c.R, rn)
 					}
